@@ -13,7 +13,7 @@ export GOFLAGS=-mod=mod GOPROXY=off
 GOT="env GOTOOLCHAIN=auto go"
 WT=/tmp/seedverify/$NAME
 LOG=/tmp/seedverify/$NAME.log
-mkdir -p /tmp/seedverify; : > "$LOG"
+mkdir -p /tmp/seedverify; [ -s "$LOG.confirm" ] && cp "$LOG.confirm" "$LOG.confirm.keep"; : > "$LOG"
 say() { echo "$@" | tee -a "$LOG"; }
 cleanup() {
   git -C /repo checkout -q -- . 2>/dev/null
@@ -23,9 +23,15 @@ cleanup() {
 trap cleanup EXIT
 
 [ -s "$OUT/patch.diff" ] || { say "VERDICT $NAME: no patch.diff"; exit 3; }
+if [ "${SEED_PHASE:-all}" = check ] && [ -s "$LOG.confirm.keep" ]; then
+  . "$LOG.confirm.keep"
+  DEMO=$(ls "$OUT"/*_test.go 2>/dev/null | head -1)
+  SKIP_WT=1
+fi
 DEMO=$(ls "$OUT"/*_test.go 2>/dev/null | head -1)
 [ -n "$DEMO" ] || { say "VERDICT $NAME: no demonstration test"; exit 3; }
-PKGDIR=$(grep -m1 -oE '(\./)?[a-z/]+/?' "$OUT/DEMO_CMD.txt" 2>/dev/null | grep -E 'dagsync|announce|pcache|metadata|dhash|find|ingest|maurl|mautil|rwriter' | head -1 | sed 's#^\./##; s#/\.\.\.$##; s#/$##')
+if [ "${SKIP_WT:-0}" != 1 ]; then
+PKGDIR=$(grep -m1 -oE '(\./)?[a-z/]+/?' "$OUT/DEMO_CMD.txt" 2>/dev/null | grep -E 'dagsync|announce|pcache|metadata|dhash|find|ingest|maurl|mautil|rwriter|apierror' | head -1 | sed 's#^\./##; s#/\.\.\.$##; s#/$##')
 [ -n "$PKGDIR" ] || PKGDIR=$(head -1 "$DEMO" | awk '{print $2}' | sed 's/_test$//')
 say "== $NAME: property $ID, demo package dir: $PKGDIR"
 
@@ -50,6 +56,12 @@ $GOT test -count=1 ./... > "$LOG.suite" 2>&1; RS=$?
 grep -E "^(FAIL|---|panic)" "$LOG.suite" | head -5 | tee -a "$LOG"
 say "   suite exit $RS"
 
+echo "R0=$R0 F=$F RS=$RS" > "$LOG.confirm"
+fi
+if [ "${SEED_PHASE:-all}" = confirm ]; then
+  say "CONFIRM $NAME: demo passes without: $([ $R0 = 0 ] && echo yes || echo NO), fails with: $F/3, suite green: $([ $RS = 0 ] && echo yes || echo NO)"
+  exit 0
+fi
 say "-- my check against the change (applied to /repo, reverted afterwards)"
 git -C /repo status --short | grep -q . && { say "VERDICT $NAME: /repo is not clean, refusing"; exit 3; }
 git -C /repo apply "$OUT/patch.diff" || { say "VERDICT $NAME: patch does not apply to /repo"; exit 3; }
